@@ -64,6 +64,7 @@ class FleetStore(Store):
         self._weighted_sum = 0.0
         self.time_averaged_num_of_items_in_store = 0.0  # Time-averaged number of items in the store
         self.activate_fleet= self.env.event()  # Event to activate the fleet when items are available
+        self.items_in_transit = []  # Items that have departed and are on their round trip
         
         self.env.process(self.fleet_activation_process())  # Start the fleet activation process
 
@@ -91,13 +92,15 @@ class FleetStore(Store):
             
             print(f"T={self.env.now:.2f}: Fleet activation process triggered.")
             
-            if self.items:
-                print(f"T={self.env.now:.2f}: Fleet activated with {len(self.items)} items ready.")
-                self.env.process(self.move_to_ready_items(self.items))
-                #self.env.process(self.move_to_ready_items(self.items))
-                if self.activate_fleet.triggered:
-                    #print("yes")
-                    self.activate_fleet = self.env.event()  # Reset the event for next activation
+            # the batch that departs now: the items that are waiting, not the ones already on a trip
+            departing = [item for item in self.items if not any(item is moving for moving in self.items_in_transit)]
+            if departing:
+                print(f"T={self.env.now:.2f}: Fleet activated with {len(departing)} items ready.")
+                self.items_in_transit.extend(departing)
+                self.env.process(self.move_to_ready_items(departing))
+            if self.activate_fleet.triggered:
+                #print("yes")
+                self.activate_fleet = self.env.event()  # Reset the event for next activation
 
     def reserve_put(self, priority=0):
         """
@@ -712,6 +715,7 @@ class FleetStore(Store):
                 
                 item_index = self.items.index(item)
                 item_to_put = self.items.pop(item_index)  # Remove the first item
+                self.items_in_transit.remove(item)
                
                 if len(self.ready_items) < self.capacity:
                     self.ready_items.append(item_to_put)
